@@ -1,4 +1,10 @@
 import TnVerif.Props.C02
+import TnVerif.Props.C03
+import TnVerif.Props.C06
+import TnVerif.Props.C16
+import TnVerif.Props.C20
+import TnVerif.Lemmas.Logic
+import TnVerif.Lemmas.LogicIndex
 import TnVerif.Generated
 import Mathlib.Tactic.NormNum
 import Mathlib.Tactic.Linarith
@@ -189,5 +195,997 @@ theorem count_le_thr {K : Type} [Field K] [LinearOrder K] [IsStrictOrderedRing K
     have : (1 : K) ≤ k := by exact_mod_cast Nat.one_le_iff_ne_zero.mpr hk
     linarith
   · intro h; subst h; simpa using h0.le
+
+/-! ## extension: quantifier helpers, counting, predicates, relevant symbols -/
+set_option linter.unusedSimpArgs false
+set_option linter.unnecessarySeqFocus false
+set_option linter.unusedSectionVars false
+
+/-! ### `true`, `false`, `all`, `none` -/
+
+theorem logic_getD_bit (idx : List Nat) (h01 : ∀ v ∈ idx, v = 0 ∨ v = 1) (n : Nat) : idx.getD n 0 = 0 ∨ idx.getD n 0 = 1 := by
+  by_cases hn : n < idx.length
+  · have : idx.getD n 0 ∈ idx := by
+      simp only [List.getD_eq_getElem?_getD, List.getElem?_eq_getElem hn, Option.getD_some]
+      exact List.getElem_mem hn
+    exact h01 _ this
+  · left; simp [List.getD_eq_getElem?_getD, List.getElem?_eq_none (by omega : idx.length ≤ n)]
+
+theorem logic_mapRange_R1 (N : Nat) (F : Nat → TMode R) (hF : ∀ n, n < N → LogicR1m (F n)) (hN : 0 < N) :
+    Tensor.WF ((List.range N).map F) ∧ Tensor.shape ((List.range N).map F) = List.replicate N 2 := by
+  have h := logicR1_map N F hF
+  refine ⟨logicR1_WF _ h (by intro h0; have := congrArg List.length h0; simp at this; omega), ?_⟩
+  have := logicR1_shape _ h
+  simpa using this
+
+theorem logicMode_R1 : LogicR1m (logicOnesMode (R := R)) ∧ LogicR1m (logicZerosMode (R := R)) ∧
+    LogicR1m (logicMode01 (R := R)) ∧ LogicR1m (logicMode10 (R := R)) := by
+  refine ⟨?_, ?_, ?_, ?_⟩ <;> exact ⟨rfl, rfl, rfl, rfl⟩
+
+/-- **`tn.true(N)`** is a well-formed `2^N` tensor that is 1 on every assignment. -/
+theorem true_dense (N : Nat) (hN : 0 < N) (idx : List Nat) (hi : idx.length = N) :
+    (logicTrue (R := R) N).WF ∧ (logicTrue (R := R) N).shape = List.replicate N 2 ∧ (logicTrue (R := R) N).dense idx = 1 := by
+  obtain ⟨w, s⟩ := logic_mapRange_R1 (R := R) N (fun _ => logicOnesMode) (fun _ _ => logicMode_R1.1) hN
+  refine ⟨w, s, ?_⟩
+  have h := logicR1_map (R := R) N (fun _ => logicOnesMode) (fun _ _ => logicMode_R1.1)
+  have := logicR1_dense_bool _ h (by intro h0; have := congrArg List.length h0; simp at this; omega) idx (by simpa using hi)
+    (fun _ => true) (by intro n hn; simp [logicOnesMode]) True (by simp)
+  simpa [logicTrue] using this
+
+/-- **`tn.false(N)`** is a well-formed `2^N` tensor that is 0 on every assignment. -/
+theorem false_dense (N : Nat) (hN : 0 < N) (idx : List Nat) (hi : idx.length = N) :
+    (logicFalse (R := R) N).WF ∧ (logicFalse (R := R) N).shape = List.replicate N 2 ∧ (logicFalse (R := R) N).dense idx = 0 := by
+  obtain ⟨w, s⟩ := logic_mapRange_R1 (R := R) N (fun _ => logicZerosMode) (fun _ _ => logicMode_R1.2.1) hN
+  refine ⟨w, s, ?_⟩
+  have h := logicR1_map (R := R) N (fun _ => logicZerosMode) (fun _ _ => logicMode_R1.2.1)
+  have := logicR1_dense_bool _ h (by intro h0; have := congrArg List.length h0; simp at this; omega) idx (by simpa using hi)
+    (fun _ => false) (by intro n hn; simp [logicZerosMode]) False (by
+      simp only [List.length_map, List.length_range, false_iff, not_forall]
+      exact ⟨0, hN, by simp⟩)
+  simpa [logicFalse] using this
+
+/-- **`tn.all(N, which)`**: 1 exactly on the assignments in which every listed variable is 1 (`which = None`: every
+    variable; entries of `which` that are not variables `< N` are never matched by `n in which` and are ignored). -/
+theorem all_dense (N : Nat) (hN : 0 < N) (which : Option (List Nat)) (idx : List Nat) (hi : idx.length = N)
+    (h01 : ∀ v ∈ idx, v = 0 ∨ v = 1) :
+    (logicAll (R := R) N which).WF ∧ (logicAll (R := R) N which).shape = List.replicate N 2 ∧
+    (logicAll (R := R) N which).dense idx = if (∀ n ∈ logicWhich N which, n < N → idx.getD n 0 = 1) then 1 else 0 := by
+  have hF : ∀ n, n < N → LogicR1m (if n ∈ logicWhich N which then logicMode01 (R := R) else logicOnesMode) := by
+    intro n _; split
+    · exact logicMode_R1.2.2.1
+    · exact logicMode_R1.1
+  obtain ⟨w, s⟩ := logic_mapRange_R1 (R := R) N _ hF hN
+  refine ⟨w, s, ?_⟩
+  have h := logicR1_map (R := R) N _ hF
+  have := logicR1_dense_bool _ h (by intro h0; have := congrArg List.length h0; simp at this; omega) idx (by simpa using hi)
+    (fun n => !decide (n ∈ logicWhich N which) || idx.getD n 0 == 1) (by
+      intro n hn
+      simp only [List.getElem_map, List.getElem_range]
+      rcases logic_getD_bit idx h01 n with hb | hb <;> rw [hb] <;> by_cases hm : n ∈ logicWhich N which <;>
+        simp [hm, logicMode01, logicOnesMode])
+    (∀ n ∈ logicWhich N which, n < N → idx.getD n 0 = 1) (by
+      simp only [List.length_map, List.length_range, Bool.or_eq_true, Bool.not_eq_true', decide_eq_false_iff_not,
+        beq_iff_eq]
+      constructor
+      · intro h n hn; by_cases hm : n ∈ logicWhich N which
+        · exact Or.inr (h n hm hn)
+        · exact Or.inl hm
+      · intro h n hm hn; rcases h n hn with h | h
+        · exact absurd hm h
+        · exact h)
+  simpa [logicAll] using this
+
+/-- **`tn.none(N, which)`**: 1 exactly on the assignments in which every listed variable is 0. -/
+theorem none_dense (N : Nat) (hN : 0 < N) (which : Option (List Nat)) (idx : List Nat) (hi : idx.length = N)
+    (h01 : ∀ v ∈ idx, v = 0 ∨ v = 1) :
+    (logicNone (R := R) N which).WF ∧ (logicNone (R := R) N which).shape = List.replicate N 2 ∧
+    (logicNone (R := R) N which).dense idx = if (∀ n ∈ logicWhich N which, n < N → idx.getD n 0 = 0) then 1 else 0 := by
+  have hF : ∀ n, n < N → LogicR1m (if n ∈ logicWhich N which then logicMode10 (R := R) else logicOnesMode) := by
+    intro n _; split
+    · exact logicMode_R1.2.2.2
+    · exact logicMode_R1.1
+  obtain ⟨w, s⟩ := logic_mapRange_R1 (R := R) N _ hF hN
+  refine ⟨w, s, ?_⟩
+  have h := logicR1_map (R := R) N _ hF
+  have := logicR1_dense_bool _ h (by intro h0; have := congrArg List.length h0; simp at this; omega) idx (by simpa using hi)
+    (fun n => !decide (n ∈ logicWhich N which) || idx.getD n 0 == 0) (by
+      intro n hn
+      simp only [List.getElem_map, List.getElem_range]
+      rcases logic_getD_bit idx h01 n with hb | hb <;> rw [hb] <;> by_cases hm : n ∈ logicWhich N which <;>
+        simp [hm, logicMode10, logicOnesMode])
+    (∀ n ∈ logicWhich N which, n < N → idx.getD n 0 = 0) (by
+      simp only [List.length_map, List.length_range, Bool.or_eq_true, Bool.not_eq_true', decide_eq_false_iff_not,
+        beq_iff_eq]
+      constructor
+      · intro h n hn; by_cases hm : n ∈ logicWhich N which
+        · exact Or.inr (h n hm hn)
+        · exact Or.inl hm
+      · intro h n hm hn; rcases h n hn with h | h
+        · exact absurd hm h
+        · exact h)
+  simpa [logicNone] using this
+
+
+/-! ### the operators on arbitrary (not necessarily Boolean) tensors -/
+
+/-- `~t` is a well-formed tensor of the same shape with entries `1 − t[idx]`. -/
+theorem lnot_spec (t : Tensor R) (ht : t.WF) :
+    t.lnot.WF ∧ t.lnot.shape = t.shape ∧ ∀ idx, idx.length = t.length → t.lnot.dense idx = 1 - t.dense idx := by
+  obtain ⟨w, s, d⟩ := expr_dense t.shape (.sadd 1 (.neg (.leaf t))) ⟨ht, rfl⟩
+  refine ⟨w, s, fun idx hi => ?_⟩
+  have := d idx (by rw [hi, shape_length])
+  simp only [evalT, evalD] at this
+  show ((t.neg).scalarAdd 1).dense idx = _
+  rw [this]; ring
+
+/-- `a & b`: entries `a[idx] · b[idx]`. -/
+theorem land_spec (a b : Tensor R) (ha : a.WF) (hb : b.WF) (hs : a.shape = b.shape) :
+    (a.land b).WF ∧ (a.land b).shape = a.shape ∧ ∀ idx, (a.land b).dense idx = a.dense idx * b.dense idx :=
+  ⟨(mul_wf_shape a b ha hb hs).1, (mul_wf_shape a b ha hb hs).2, fun idx => mul_dense a b ha hb hs idx⟩
+
+/-- `a | b`: entries `a + b − a·b`. -/
+theorem lor_spec (a b : Tensor R) (ha : a.WF) (hb : b.WF) (hs : a.shape = b.shape) :
+    (a.lor b).WF ∧ (a.lor b).shape = a.shape ∧
+      ∀ idx, idx.length = a.length → (a.lor b).dense idx = a.dense idx + b.dense idx - a.dense idx * b.dense idx := by
+  obtain ⟨w, s, d⟩ := expr_dense a.shape (.sub (.add (.leaf a) (.leaf b)) (.mul (.leaf a) (.leaf b)))
+    ⟨⟨⟨ha, rfl⟩, hb, hs.symm⟩, ⟨ha, rfl⟩, hb, hs.symm⟩
+  exact ⟨w, s, fun idx hi => d idx (by rw [hi, shape_length])⟩
+
+/-- `a ^ b`: entries `a + b − 2·a·b`, given the kernel contract `ρ ^ N = 2` of the scalar product `2 * a`. -/
+theorem lxor_spec (ρ : R) (a b : Tensor R) (ha : a.WF) (hb : b.WF) (hs : a.shape = b.shape) (hρ : ρ ^ a.length = 2) :
+    (a.lxor ρ b).WF ∧ (a.lxor ρ b).shape = a.shape ∧
+      ∀ idx, idx.length = a.length → (a.lxor ρ b).dense idx = a.dense idx + b.dense idx - 2 * a.dense idx * b.dense idx := by
+  obtain ⟨w, s, d⟩ := expr_dense a.shape (.sub (.add (.leaf a) (.leaf b)) (.mul (.smul ρ 1 2 (.leaf a)) (.leaf b)))
+    ⟨⟨⟨ha, rfl⟩, hb, hs.symm⟩, ⟨⟨ha, rfl⟩, by rw [shape_length, one_mul]; exact hρ⟩, hb, hs.symm⟩
+  refine ⟨w, s, fun idx hi => ?_⟩
+  have := d idx (by rw [hi, shape_length])
+  simp only [evalT, evalD] at this
+  show ((a.add b).sub ((a.scalarMul ρ 1).mul b)).dense idx = _
+  rw [this]
+
+/-- the operators of a formula tree are the functions `lnot`, `land`, `lor`, `lxor` of Model/Logic -/
+theorem evalT_toExpr (N : Nat) (e : BForm R) :
+    evalT (toExpr N e) = match e with
+      | .sym n => symT N n
+      | .not a => (evalT (toExpr N a)).lnot
+      | .and a b => (evalT (toExpr N a)).land (evalT (toExpr N b))
+      | .or a b => (evalT (toExpr N a)).lor (evalT (toExpr N b))
+      | .xor ρ a b => (evalT (toExpr N a)).lxor ρ (evalT (toExpr N b)) := by
+  cases e <;> rfl
+
+/-! ### `any`, `one` -/
+
+/-- **`tn.any(N, which)`**: 1 exactly on the assignments in which some listed variable is 1. -/
+theorem any_dense (N : Nat) (hN : 0 < N) (which : Option (List Nat)) (idx : List Nat) (hi : idx.length = N)
+    (h01 : ∀ v ∈ idx, v = 0 ∨ v = 1) :
+    (logicAny (R := R) N which).WF ∧ (logicAny (R := R) N which).shape = List.replicate N 2 ∧
+    (logicAny (R := R) N which).dense idx = if (∃ n ∈ logicWhich N which, n < N ∧ idx.getD n 0 = 1) then 1 else 0 := by
+  obtain ⟨w, s, d⟩ := none_dense (R := R) N hN which idx hi h01
+  obtain ⟨w', s', d'⟩ := lnot_spec _ w
+  have hlen : (logicNone (R := R) N which).length = N := by simp [logicNone]
+  refine ⟨w', by rw [← s]; exact s', ?_⟩
+  show (logicNone (R := R) N which).lnot.dense idx = _
+  rw [d' idx (by rw [hi, hlen]), d]
+  by_cases h : ∀ n ∈ logicWhich N which, n < N → idx.getD n 0 = 0
+  · have : ¬ ∃ n ∈ logicWhich N which, n < N ∧ idx.getD n 0 = 1 := by
+      rintro ⟨n, hm, hn, h1⟩; have := h n hm hn; omega
+    rw [if_pos h, if_neg this]; ring
+  · have : ∃ n ∈ logicWhich N which, n < N ∧ idx.getD n 0 = 1 := by
+      by_contra hc
+      apply h; intro n hm hn
+      rcases logic_getD_bit idx h01 n with hb | hb
+      · exact hb
+      · exact absurd ⟨n, hm, hn, hb⟩ hc
+    rw [if_neg h, if_pos this]; ring
+
+/-- for a 0/1 assignment the sum of the entries is the number of variables that are 1 -/
+theorem logic_sum_eq_count (idx : List Nat) (h01 : ∀ v ∈ idx, v = 0 ∨ v = 1) : idx.sum = idx.count 1 := by
+  induction idx with
+  | nil => rfl
+  | cons i is ih =>
+    have := ih (fun v hv => h01 v (List.mem_cons_of_mem _ hv))
+    rcases h01 i (by simp) with h | h <;> subst h <;> simp [this] <;> omega
+
+/-- **`tn.one(N, which)`** as coded: without `which` it is 1 exactly on the assignments with exactly one variable equal
+    to 1.  With an explicit `which` the code returns `weight_mask(N, 1) & any(N, which)`: 1 exactly when exactly one of
+    ALL `N` variables is 1 and that variable is listed — not "exactly one of the listed variables" (see REPORT). -/
+theorem one_dense (N : Nat) (hN : 0 < N) (which : Option (List Nat)) (idx : List Nat) (hi : idx.length = N)
+    (h01 : ∀ v ∈ idx, v = 0 ∨ v = 1) :
+    (logicOne (R := R) N which).WF ∧ (logicOne (R := R) N which).shape = List.replicate N 2 ∧
+    (logicOne (R := R) N which).dense idx =
+      match which with
+      | Option.none => if idx.count 1 = 1 then 1 else 0
+      | some w => if idx.count 1 = 1 ∧ ∃ n ∈ w, n < N ∧ idx.getD n 0 = 1 then 1 else 0 := by
+  have hne : List.replicate N 2 ≠ [] := by intro h; have := congrArg List.length h; simp at this; omega
+  obtain ⟨w, s⟩ := weightMask_wf_shape (R := R) [1] 2 (List.replicate N 2) hne
+  have d := C16.weightMask_dense (R := R) [1] 2 (by simp) (List.replicate N 2) idx hne (by simpa using hi)
+  rw [C16.countW_nodup [1] (by simp), logic_sum_eq_count idx h01] at d
+  simp only [List.mem_singleton] at d
+  cases which with
+  | none => exact ⟨w, s, d⟩
+  | some wl =>
+    obtain ⟨w2, s2, d2⟩ := any_dense (R := R) N hN (some wl) idx hi h01
+    obtain ⟨w3, s3, d3⟩ := land_spec _ _ w w2 (by rw [s, s2])
+    refine ⟨w3, by rw [← s]; exact s3, ?_⟩
+    show ((weightMask (R := R) [1] 2 (List.replicate N 2)).land (logicAny N (some wl))).dense idx = _
+    rw [d3, d, d2]
+    simp only [logicWhich, Option.getD_some]
+    by_cases h1 : idx.count 1 = 1 <;> by_cases h2 : ∃ n ∈ wl, n < N ∧ idx.getD n 0 = 1 <;> simp [h1, h2]
+
+
+/-! ### `presence`, `absence`, `symbols` -/
+
+/-- **the list indices `cores[w]`** (Python list indexing): all entries inside `-N … N-1` are accepted and mean
+    `w mod N`; otherwise `IndexError` -/
+theorem normWhich_ok (N : Nat) (which : List Int) (h : ∀ w ∈ which, -(N : Int) ≤ w ∧ w < N) :
+    logicNormWhich N which = .ok (which.map fun w => (w % (N : Int)).toNat) := by
+  induction which with
+  | nil => rfl
+  | cons w ws ih =>
+    have h1 := C03.normInt_ok w N (h w (by simp))
+    have h2 := ih (fun v hv => h v (List.mem_cons_of_mem _ hv))
+    simp only [logicNormWhich] at h2 ⊢
+    simp [List.mapM_cons, h1, h2, bind, Except.bind, pure, Except.pure]
+
+theorem normWhich_err (N : Nat) (which : List Int) (h : ∃ w ∈ which, w < -(N : Int) ∨ (N : Int) ≤ w) :
+    logicNormWhich N which = .error .outOfRange := by
+  induction which with
+  | nil => obtain ⟨w, hw, _⟩ := h; cases hw
+  | cons w ws ih =>
+    by_cases hw : w < -(N : Int) ∨ (N : Int) ≤ w
+    · have h1 := C03.normInt_err w N hw
+      simp [logicNormWhich, List.mapM_cons, h1, bind, Except.bind]
+    · have h1 := C03.normInt_ok w N (by omega)
+      have h2 := ih (by
+        obtain ⟨v, hv, hv2⟩ := h
+        rcases List.mem_cons.mp hv with rfl | hv
+        · exact absurd hv2 hw
+        · exact ⟨v, hv, hv2⟩)
+      simp only [logicNormWhich] at h2 ⊢
+      simp [List.mapM_cons, h1, h2, bind, Except.bind]
+
+theorem normWhich_lt (N : Nat) (which : List Int) (ws : List Nat) (h : logicNormWhich N which = .ok ws) :
+    ∀ w ∈ ws, w < N := by
+  by_cases hr : ∀ w ∈ which, -(N : Int) ≤ w ∧ w < N
+  · rw [normWhich_ok N which hr] at h
+    cases h
+    intro w hw
+    obtain ⟨v, hv, rfl⟩ := List.mem_map.mp hw
+    have := hr v hv
+    have hN : (0 : Int) < N := by omega
+    have := Int.emod_lt_of_pos v hN
+    have := Int.emod_nonneg v (by omega : (N : Int) ≠ 0)
+    omega
+  · rw [normWhich_err N which (by
+      simp only [not_forall] at hr
+      obtain ⟨w, hw, hw2⟩ := hr
+      exact ⟨w, hw, by omega⟩)] at h
+    cases h
+
+theorem logicTrue_inv (N : Nat) : LogicInv (logicTrue (R := R) N) (fun _ _ => 1) := by
+  refine ⟨logicR1_map N _ (fun _ _ => logicMode_R1.1), ?_, ?_⟩
+  · intro m hm
+    obtain ⟨n, _, rfl⟩ := List.mem_map.mp hm
+    rfl
+  · intro n hn j
+    simp [logicTrue, logicOnesMode]
+
+/-- the loop `for w in which: cores[w][0, j0, 0] = 0` over ones cores: well formed, shape `2^N`, and 1 exactly on the
+    assignments in which no listed variable has the value `j0` -/
+theorem logicFold_dense (j0 : Nat) (hj : j0 = 0 ∨ j0 = 1) (N : Nat) (hN : 0 < N) (ws : List Nat) (hws : ∀ w ∈ ws, w < N)
+    (idx : List Nat) (hi : idx.length = N) (h01 : ∀ v ∈ idx, v = 0 ∨ v = 1) :
+    (ws.foldl (logicZeroAt j0) (logicTrue (R := R) N)).WF ∧
+    (ws.foldl (logicZeroAt j0) (logicTrue (R := R) N)).shape = List.replicate N 2 ∧
+    (ws.foldl (logicZeroAt j0) (logicTrue (R := R) N)).dense idx = if (∀ w ∈ ws, idx.getD w 0 = 1 - j0) then 1 else 0 := by
+  obtain ⟨⟨r1, _, hg⟩, hlen⟩ := logicFold_inv (R := R) j0 ws _ _ (logicTrue_inv N)
+  have hl : (logicTrue (R := R) N).length = N := by simp [logicTrue]
+  rw [hl] at hlen
+  have hne : ws.foldl (logicZeroAt j0) (logicTrue (R := R) N) ≠ [] := by
+    intro h0; rw [h0] at hlen; simp at hlen; omega
+  refine ⟨logicR1_WF _ r1 hne, by rw [logicR1_shape _ r1, hlen], ?_⟩
+  apply logicR1_dense_bool _ r1 hne idx (by rw [hi, hlen]) (fun n => !decide (n ∈ ws) || idx.getD n 0 == 1 - j0)
+  · intro n hn
+    rw [hg n hn]
+    rcases logic_getD_bit idx h01 n with hb | hb <;> rw [hb] <;> by_cases hm : n ∈ ws <;>
+      rcases hj with rfl | rfl <;> simp [hm]
+  · rw [hlen]
+    simp only [Bool.or_eq_true, Bool.not_eq_true', decide_eq_false_iff_not, beq_iff_eq]
+    constructor
+    · intro h n _; by_cases hm : n ∈ ws
+      · exact Or.inr (h n hm)
+      · exact Or.inl hm
+    · intro h w hm; rcases h w (hws w hm) with h | h
+      · exact absurd hm h
+      · exact h
+
+/-- **`tn.presence(N, which)`**: for list indices inside `-N … N-1` (normalised to `ws`) the result is a well-formed
+    `2^N` tensor that is 1 exactly on the assignments in which every listed variable is 1. -/
+theorem presence_dense (N : Nat) (hN : 0 < N) (which : List Int) (ws : List Nat) (hws : logicNormWhich N which = .ok ws)
+    (idx : List Nat) (hi : idx.length = N) (h01 : ∀ v ∈ idx, v = 0 ∨ v = 1) :
+    ∃ t : Tensor R, logicPresence N which = .ok t ∧ t.WF ∧ t.shape = List.replicate N 2 ∧
+      t.dense idx = if (∀ w ∈ ws, idx.getD w 0 = 1) then 1 else 0 := by
+  refine ⟨ws.foldl (logicZeroAt 0) (logicTrue N), by simp [logicPresence, hws, bind, Except.bind, pure, Except.pure], ?_⟩
+  exact logicFold_dense 0 (Or.inl rfl) N hN ws (normWhich_lt N which ws hws) idx hi h01
+
+/-- **`tn.absence(N, which)`**: 1 exactly on the assignments in which every listed variable is 0. -/
+theorem absence_dense (N : Nat) (hN : 0 < N) (which : List Int) (ws : List Nat) (hws : logicNormWhich N which = .ok ws)
+    (idx : List Nat) (hi : idx.length = N) (h01 : ∀ v ∈ idx, v = 0 ∨ v = 1) :
+    ∃ t : Tensor R, logicAbsence N which = .ok t ∧ t.WF ∧ t.shape = List.replicate N 2 ∧
+      t.dense idx = if (∀ w ∈ ws, idx.getD w 0 = 0) then 1 else 0 := by
+  refine ⟨ws.foldl (logicZeroAt 1) (logicTrue N), by simp [logicAbsence, hws, bind, Except.bind, pure, Except.pure], ?_⟩
+  exact logicFold_dense 1 (Or.inr rfl) N hN ws (normWhich_lt N which ws hws) idx hi h01
+
+/-- an index outside `-N … N-1` makes `presence` / `absence` raise (`IndexError` of `cores[w]`) -/
+theorem presence_raises (N : Nat) (which : List Int) (h : ∃ w ∈ which, w < -(N : Int) ∨ (N : Int) ≤ w) :
+    logicPresence (R := R) N which = .error .outOfRange ∧ logicAbsence (R := R) N which = .error .outOfRange := by
+  simp [logicPresence, logicAbsence, normWhich_err N which h, bind, Except.bind]
+
+theorem logic_mapM_ok {α β : Type} (f : α → Except IdxErr β) (g : α → β) : ∀ (l : List α), (∀ x ∈ l, f x = .ok (g x)) →
+    l.mapM f = .ok (l.map g) := by
+  intro l
+  induction l with
+  | nil => intro _; rfl
+  | cons x xs ih =>
+    intro h
+    simp [List.mapM_cons, h x (by simp), ih (fun y hy => h y (List.mem_cons_of_mem _ hy)), bind, Except.bind, pure, Except.pure]
+
+/-- **`tn.symbols(N)`** returns `N` well-formed `2^N` tensors; the `n`-th is 1 exactly on the assignments with `x_n = 1`
+    (it has the same truth table as the leaf `symT N n` of the formula trees of `truth_table`). -/
+theorem symbols_dense (N : Nat) (hN : 0 < N) :
+    ∃ ts : List (Tensor R), logicSymbols N = .ok ts ∧ ts.length = N ∧ ∀ n (hn : n < ts.length),
+      (ts[n]).WF ∧ (ts[n]).shape = List.replicate N 2 ∧
+      ∀ idx : List Nat, idx.length = N → (∀ v ∈ idx, v = 0 ∨ v = 1) →
+        (ts[n]).dense idx = b01 (idx.getD n 0 == 1) ∧ (ts[n]).dense idx = (symT N n).dense idx := by
+  refine ⟨(List.range N).map fun n => [n].foldl (logicZeroAt 0) (logicTrue N), ?_, by simp, ?_⟩
+  · apply logic_mapM_ok
+    intro n hn
+    have hn' := List.mem_range.mp hn
+    have : logicNormWhich N [(n : Int)] = .ok [n] := by
+      rw [normWhich_ok N [(n : Int)] (by intro w hw; simp at hw; subst hw; constructor <;> omega)]
+      simp [Int.emod_eq_of_lt, hn']
+    simp only [logicPresence, Int.ofNat_eq_natCast, this]
+    rfl
+  · intro n hn
+    have hn' : n < N := by simpa using hn
+    simp only [List.getElem_map, List.getElem_range]
+    have key := fun idx hi h01 => logicFold_dense (R := R) 0 (Or.inl rfl) N hN [n] (by simpa using hn') idx hi h01
+    have idx0 : (List.replicate N 0).length = N := by simp
+    obtain ⟨w, s, _⟩ := key (List.replicate N 0) idx0 (by intro v hv; left; exact List.eq_of_mem_replicate hv)
+    refine ⟨w, s, fun idx hi h01 => ?_⟩
+    obtain ⟨_, _, d⟩ := key idx hi h01
+    have hd : (List.foldl (logicZeroAt 0) (logicTrue (R := R) N) [n]).dense idx = b01 (idx.getD n 0 == 1) := by
+      rw [d]; by_cases h : idx.getD n 0 = 1 <;> simp [h, b01]
+    exact ⟨hd, by rw [hd, symT_dense N n hn' idx hi h01]⟩
+
+
+/-! ### counting: the sum of a formula is its number of satisfying assignments -/
+
+/-- the `2^N` assignments, in lexicographic order -/
+abbrev assignments (N : Nat) : List (List Nat) := lexBox (List.replicate N 2)
+
+theorem mem_assignments (N : Nat) (idx : List Nat) :
+    idx ∈ assignments N ↔ idx.length = N ∧ ∀ v ∈ idx, v = 0 ∨ v = 1 := by
+  rw [assignments, logic_mem_lexBox, logic_inShape_bits]
+
+/-- a tensor whose entries on the `2^N` assignments are the 0/1 values of a Boolean function `f` sums to the number of
+    assignments that satisfy `f` -/
+theorem boxSum_bool (N : Nat) (d : List Nat → R) (f : List Nat → Bool)
+    (hd : ∀ idx, idx.length = N → (∀ v ∈ idx, v = 0 ∨ v = 1) → d idx = b01 (f idx)) :
+    boxSum (List.replicate N 2) d = ((assignments N).countP f : R) := by
+  rw [← logic_boxSum_indicator]
+  apply boxSum_congr_inShape
+  intro is his
+  obtain ⟨h1, h2⟩ := (logic_inShape_bits is N).mp his
+  rw [hd is h1 h2]; rfl
+
+/-- **`sum_counts_models`**: the sum of all entries of a formula's tensor (over the `2^N` box — what `tn.sum` returns,
+    `sum_counts_models_tn`) is the number of satisfying assignments of the formula. -/
+theorem sum_counts_models (N : Nat) (hN : 0 < N) (e : BForm R) (hw : wfB N e) :
+    boxSum (List.replicate N 2) (evalT (toExpr N e)).dense = ((assignments N).countP (evalB e) : R) :=
+  boxSum_bool N _ _ (fun idx hi h01 => truth_table N hN e hw idx hi h01)
+
+/-- a well-formed formula is a well-formed `2^N` tensor -/
+theorem formula_wf_shape (N : Nat) (hN : 0 < N) (e : BForm R) (hw : wfB N e) :
+    (evalT (toExpr N e)).WF ∧ (evalT (toExpr N e)).shape = List.replicate N 2 := by
+  obtain ⟨w, s, _⟩ := expr_dense (List.replicate N 2) (toExpr N e) (wfExpr_toExpr N e hw (fun n _ => symT_wf_shape N n hN))
+  exact ⟨w, s⟩
+
+/-- `tn.sum(formula)` returns the number of satisfying assignments -/
+theorem sum_counts_models_tn (N : Nat) (hN : 0 < N) (e : BForm R) (hw : wfB N e) :
+    (evalT (toExpr N e)).sum (allDims (evalT (toExpr N e))) = .ok (.inr ((assignments N).countP (evalB e) : R)) := by
+  obtain ⟨w, s⟩ := formula_wf_shape N hN e hw
+  rw [C06.sum_all _ w, s, sum_counts_models N hN e hw]
+
+example : wfB (R := Int) 2 (.or (.sym 0) (.not (.sym 1))) := by simp [wfB]
+example : (assignments 2).countP (evalB (R := Int) (.or (.sym 0) (.not (.sym 1)))) = 3 := by decide
+
+
+/-! ### the predicates (ordered scalars, the threshold a parameter) -/
+section predicates
+variable {K : Type} [Field K] [LinearOrder K] [IsStrictOrderedRing K]
+
+/-- `norm(x) ≤ thr` for a tensor whose squared norm is the natural number `k` (a count of assignments): with
+    `thr² < 1` the test holds iff `k = 0` -/
+theorem normLe_nat (thr : K) (k : Nat) (h1 : thr * thr < 1) : logicNormLe thr (k : K) = true ↔ k = 0 := by
+  have hk : (0 : K) ≤ k := Nat.cast_nonneg k
+  have hsq : 0 ≤ thr * thr := mul_self_nonneg thr
+  simp only [logicNormLe, logicNormGt, logicClamp0, if_neg (not_lt.mpr hk), Bool.not_eq_true', decide_eq_false_iff_not,
+    not_lt]
+  constructor
+  · intro h
+    by_contra hne
+    have : (1 : K) ≤ k := by exact_mod_cast Nat.one_le_iff_ne_zero.mpr hne
+    linarith
+  · intro h; subst h; simpa using hsq
+
+/-- `norm(x) > thr` for a squared norm `k ∈ ℕ`: with `thr² < 1` the test holds iff `k ≠ 0` -/
+theorem normGt_nat (thr : K) (k : Nat) (h1 : thr * thr < 1) : logicNormGt thr (k : K) = true ↔ k ≠ 0 := by
+  have := normLe_nat thr k h1
+  simp only [logicNormLe, Bool.not_eq_true'] at this
+  constructor
+  · intro h hk; rw [this.mpr hk] at h; cases h
+  · intro h; by_contra hc
+    exact h (this.mp (by simpa using hc))
+
+/-- over ℝ the squared comparison is the comparison of the norm: `sqrt(clamp(x, 0)) ≤ thr` for `thr ≥ 0` -/
+theorem norm_le_real (x thr : ℝ) (h0 : 0 ≤ thr) : logicNormLe thr x = true ↔ Real.sqrt (max x 0) ≤ thr := by
+  have hc : logicClamp0 x = max x 0 := by
+    simp only [logicClamp0]; split
+    · rw [max_eq_right (by linarith)]
+    · rw [max_eq_left (by linarith)]
+  simp only [logicNormLe, logicNormGt, hc, Bool.not_eq_true', decide_eq_false_iff_not, not_lt]
+  rw [Real.sqrt_le_left h0, sq]
+
+theorem norm_gt_real (x thr : ℝ) (h0 : 0 ≤ thr) : logicNormGt thr x = true ↔ thr < Real.sqrt (max x 0) := by
+  have := norm_le_real x thr h0
+  simp only [logicNormLe, Bool.not_eq_true'] at this
+  rw [← not_le, ← this]; simp
+
+/-- the squared norm of a 0/1 tensor is the number of assignments on which it is 1 -/
+theorem normsqTab_bool (N : Nat) (t : Tensor K) (ht : t.WF) (hs : t.shape = List.replicate N 2) (f : List Nat → Bool)
+    (hd : ∀ idx, idx.length = N → (∀ v ∈ idx, v = 0 ∨ v = 1) → t.dense idx = b01 (f idx)) :
+    t.normsqTab = ((assignments N).countP f : K) := by
+  rw [logic_normsqTab_eq t ht, C06.normsq_eq t ht, hs]
+  apply boxSum_bool
+  intro idx hi h01
+  rw [hd idx hi h01]; cases f idx <;> simp [b01]
+
+theorem countP_eq_zero_iff (N : Nat) (f : List Nat → Bool) :
+    (assignments N).countP f = 0 ↔ ∀ idx, idx.length = N → (∀ v ∈ idx, v = 0 ∨ v = 1) → f idx = false := by
+  rw [List.countP_eq_zero]
+  constructor
+  · intro h idx hi h01
+    have := h idx ((mem_assignments N idx).mpr ⟨hi, h01⟩)
+    simpa using this
+  · intro h idx hm
+    obtain ⟨hi, h01⟩ := (mem_assignments N idx).mp hm
+    simp [h idx hi h01]
+
+/-- **`is_contradiction`** (`norm(t) ≤ thr`, any threshold with `thr² < 1`, e.g. `1e-6`): for a `2^N` tensor with the
+    0/1 truth table `f` the predicate is true iff no assignment satisfies `f`. -/
+theorem is_contradiction_iff (thr : K) (h1 : thr * thr < 1) (N : Nat) (t : Tensor K) (ht : t.WF)
+    (hs : t.shape = List.replicate N 2) (f : List Nat → Bool)
+    (hd : ∀ idx, idx.length = N → (∀ v ∈ idx, v = 0 ∨ v = 1) → t.dense idx = b01 (f idx)) :
+    t.isContradiction thr = true ↔ ∀ idx, idx.length = N → (∀ v ∈ idx, v = 0 ∨ v = 1) → f idx = false := by
+  rw [Tensor.isContradiction, normsqTab_bool N t ht hs f hd, normLe_nat thr _ h1, countP_eq_zero_iff]
+
+/-- the truth table of `~t` -/
+theorem lnot_bool (N : Nat) (t : Tensor R) (ht : t.WF) (hs : t.shape = List.replicate N 2) (f : List Nat → Bool)
+    (hd : ∀ idx, idx.length = N → (∀ v ∈ idx, v = 0 ∨ v = 1) → t.dense idx = b01 (f idx)) :
+    t.lnot.WF ∧ t.lnot.shape = List.replicate N 2 ∧
+      ∀ idx, idx.length = N → (∀ v ∈ idx, v = 0 ∨ v = 1) → t.lnot.dense idx = b01 (!f idx) := by
+  obtain ⟨w, s, d⟩ := lnot_spec t ht
+  have hl : t.length = N := by rw [← shape_length, hs]; simp
+  refine ⟨w, by rw [s, hs], fun idx hi h01 => ?_⟩
+  rw [d idx (by rw [hi, hl]), hd idx hi h01]; cases f idx <;> simp [b01]
+
+/-- the truth table of `a & b` -/
+theorem land_bool (N : Nat) (a b : Tensor R) (ha : a.WF) (hb : b.WF) (hsa : a.shape = List.replicate N 2)
+    (hsb : b.shape = List.replicate N 2) (f g : List Nat → Bool)
+    (hda : ∀ idx, idx.length = N → (∀ v ∈ idx, v = 0 ∨ v = 1) → a.dense idx = b01 (f idx))
+    (hdb : ∀ idx, idx.length = N → (∀ v ∈ idx, v = 0 ∨ v = 1) → b.dense idx = b01 (g idx)) :
+    (a.land b).WF ∧ (a.land b).shape = List.replicate N 2 ∧
+      ∀ idx, idx.length = N → (∀ v ∈ idx, v = 0 ∨ v = 1) → (a.land b).dense idx = b01 (f idx && g idx) := by
+  obtain ⟨w, s, d⟩ := land_spec a b ha hb (by rw [hsa, hsb])
+  refine ⟨w, by rw [s, hsa], fun idx hi h01 => ?_⟩
+  rw [d idx, hda idx hi h01, hdb idx hi h01]; cases f idx <;> cases g idx <;> simp [b01]
+
+/-- **`is_tautology`** (`norm(~t) ≤ thr`, `thr² < 1`): true iff every assignment satisfies `f`. -/
+theorem is_tautology_iff (thr : K) (h1 : thr * thr < 1) (N : Nat) (t : Tensor K) (ht : t.WF)
+    (hs : t.shape = List.replicate N 2) (f : List Nat → Bool)
+    (hd : ∀ idx, idx.length = N → (∀ v ∈ idx, v = 0 ∨ v = 1) → t.dense idx = b01 (f idx)) :
+    t.isTautology thr = true ↔ ∀ idx, idx.length = N → (∀ v ∈ idx, v = 0 ∨ v = 1) → f idx = true := by
+  obtain ⟨w, s, d⟩ := lnot_bool N t ht hs f hd
+  have := is_contradiction_iff thr h1 N t.lnot w s (fun idx => !f idx) d
+  simp only [Tensor.isContradiction, Bool.not_eq_false'] at this
+  exact this
+
+/-- **`is_satisfiable`** (`sum(t) ≥ thr`, any threshold with `0 < thr ≤ 1`, e.g. `1e-6`): the call succeeds and
+    returns true iff some assignment satisfies `f`. -/
+theorem is_satisfiable_iff (thr : K) (h0 : 0 < thr) (h1 : thr ≤ 1) (N : Nat) (t : Tensor K) (ht : t.WF)
+    (hs : t.shape = List.replicate N 2) (f : List Nat → Bool)
+    (hd : ∀ idx, idx.length = N → (∀ v ∈ idx, v = 0 ∨ v = 1) → t.dense idx = b01 (f idx)) :
+    ∃ b, t.isSatisfiable thr = .ok b ∧
+      (b = true ↔ ∃ idx, idx.length = N ∧ (∀ v ∈ idx, v = 0 ∨ v = 1) ∧ f idx = true) := by
+  have hsum : t.sum (allDims t) = .ok (.inr (((assignments N).countP f : Nat) : K)) := by
+    rw [C06.sum_all t ht, hs, boxSum_bool N _ f hd]
+  refine ⟨!decide ((((assignments N).countP f : Nat) : K) < thr), by simp [Tensor.isSatisfiable, hsum, bind, Except.bind, pure, Except.pure], ?_⟩
+  simp only [Bool.not_eq_true', decide_eq_false_iff_not, not_lt]
+  constructor
+  · intro h
+    by_contra hc
+    have : (assignments N).countP f = 0 := by
+      rw [countP_eq_zero_iff]
+      intro idx hi h01
+      by_contra hf
+      exact hc ⟨idx, hi, h01, by simpa using hf⟩
+    rw [this] at h; simp at h; linarith
+  · rintro ⟨idx, hi, h01, hf⟩
+    have hpos : 0 < (assignments N).countP f :=
+      List.countP_pos_iff.mpr ⟨idx, (mem_assignments N idx).mpr ⟨hi, h01⟩, hf⟩
+    have : (1 : K) ≤ ((assignments N).countP f : Nat) := by exact_mod_cast hpos
+    linarith
+
+/-- **`implies`** (`is_contradiction(t1 & ~t2)`, `thr² < 1`): true iff every assignment that satisfies `f` satisfies `g`. -/
+theorem implies_iff (thr : K) (h1 : thr * thr < 1) (N : Nat) (t1 t2 : Tensor K) (h1w : t1.WF) (h2w : t2.WF)
+    (hs1 : t1.shape = List.replicate N 2) (hs2 : t2.shape = List.replicate N 2) (f g : List Nat → Bool)
+    (hd1 : ∀ idx, idx.length = N → (∀ v ∈ idx, v = 0 ∨ v = 1) → t1.dense idx = b01 (f idx))
+    (hd2 : ∀ idx, idx.length = N → (∀ v ∈ idx, v = 0 ∨ v = 1) → t2.dense idx = b01 (g idx)) :
+    t1.limplies thr t2 = true ↔ ∀ idx, idx.length = N → (∀ v ∈ idx, v = 0 ∨ v = 1) → f idx = true → g idx = true := by
+  obtain ⟨w, s, d⟩ := lnot_bool N t2 h2w hs2 g hd2
+  obtain ⟨w', s', d'⟩ := land_bool N t1 t2.lnot h1w w hs1 s f (fun idx => !g idx) hd1 d
+  rw [Tensor.limplies, is_contradiction_iff thr h1 N _ w' s' _ d']
+  constructor
+  · intro h idx hi h01 hf
+    have := h idx hi h01
+    rw [hf] at this; simpa using this
+  · intro h idx hi h01
+    have := h idx hi h01
+    cases hf : f idx
+    · simp
+    · simp [this hf]
+
+/-- **`equiv`** (`implies(t1, t2) & implies(t2, t1)`): true iff the two truth tables agree on every assignment. -/
+theorem equiv_iff (thr : K) (h1 : thr * thr < 1) (N : Nat) (t1 t2 : Tensor K) (h1w : t1.WF) (h2w : t2.WF)
+    (hs1 : t1.shape = List.replicate N 2) (hs2 : t2.shape = List.replicate N 2) (f g : List Nat → Bool)
+    (hd1 : ∀ idx, idx.length = N → (∀ v ∈ idx, v = 0 ∨ v = 1) → t1.dense idx = b01 (f idx))
+    (hd2 : ∀ idx, idx.length = N → (∀ v ∈ idx, v = 0 ∨ v = 1) → t2.dense idx = b01 (g idx)) :
+    t1.lequiv thr t2 = true ↔ ∀ idx, idx.length = N → (∀ v ∈ idx, v = 0 ∨ v = 1) → f idx = g idx := by
+  rw [Tensor.lequiv, Bool.and_eq_true, implies_iff thr h1 N t1 t2 h1w h2w hs1 hs2 f g hd1 hd2,
+    implies_iff thr h1 N t2 t1 h2w h1w hs2 hs1 g f hd2 hd1]
+  constructor
+  · rintro ⟨a, b⟩ idx hi h01
+    have := a idx hi h01; have := b idx hi h01
+    cases hf : f idx <;> cases hg : g idx <;> simp_all
+  · intro h
+    exact ⟨fun idx hi h01 hf => by rw [← h idx hi h01]; exact hf, fun idx hi h01 hg => by rw [h idx hi h01]; exact hg⟩
+
+/-- **the predicates on formulas**: for every well-formed formula tree (pairs for the binary predicates) over `N`
+    variables and thresholds `thr² < 1` (norm tests) resp. `0 < thr ≤ 1` (sum test) — in particular the literals `1e-6`
+    of logic.py (`thresholds_from_source`) — the predicates decide exactly the truth-table statements. -/
+theorem predicates_formula (thr : K) (h0 : 0 < thr) (h1 : thr * thr < 1) (h1' : thr ≤ 1) (N : Nat) (hN : 0 < N)
+    (e e' : BForm K) (hw : wfB N e) (hw' : wfB N e') :
+    ((evalT (toExpr N e)).isTautology thr = true ↔
+        ∀ idx, idx.length = N → (∀ v ∈ idx, v = 0 ∨ v = 1) → evalB e idx = true) ∧
+    ((evalT (toExpr N e)).isContradiction thr = true ↔
+        ∀ idx, idx.length = N → (∀ v ∈ idx, v = 0 ∨ v = 1) → evalB e idx = false) ∧
+    (∃ b, (evalT (toExpr N e)).isSatisfiable thr = .ok b ∧
+        (b = true ↔ ∃ idx, idx.length = N ∧ (∀ v ∈ idx, v = 0 ∨ v = 1) ∧ evalB e idx = true)) ∧
+    ((evalT (toExpr N e)).limplies thr (evalT (toExpr N e')) = true ↔
+        ∀ idx, idx.length = N → (∀ v ∈ idx, v = 0 ∨ v = 1) → evalB e idx = true → evalB e' idx = true) ∧
+    ((evalT (toExpr N e)).lequiv thr (evalT (toExpr N e')) = true ↔
+        ∀ idx, idx.length = N → (∀ v ∈ idx, v = 0 ∨ v = 1) → evalB e idx = evalB e' idx) := by
+  obtain ⟨w, s⟩ := formula_wf_shape N hN e hw
+  obtain ⟨w', s'⟩ := formula_wf_shape N hN e' hw'
+  have d := fun idx hi h01 => truth_table N hN e hw idx hi h01
+  have d' := fun idx hi h01 => truth_table N hN e' hw' idx hi h01
+  exact ⟨is_tautology_iff thr h1 N _ w s _ d, is_contradiction_iff thr h1 N _ w s _ d,
+    is_satisfiable_iff thr h0 h1' N _ w s _ d, implies_iff thr h1 N _ _ w w' s s' _ _ d d',
+    equiv_iff thr h1 N _ _ w w' s s' _ _ d d'⟩
+
+/-- the literal thresholds of logic.py satisfy the conditions -/
+example : (0 : ℚ) < 1 / 1000000 ∧ (1 / 1000000 : ℚ) * (1 / 1000000) < 1 ∧ (1 / 1000000 : ℚ) ≤ 1 := by norm_num
+
+end predicates
+
+
+/-! ### `relevant_symbols`, `irrelevant_symbols`, `only` -/
+
+/-- **indexing with integers and slices**: if `_process_key` leaves the key alone and bounds normalisation yields the
+    items `ks` (one per mode), `u[key]` never fails; without a slice it is the scalar entry at the integer positions,
+    otherwise a well-formed tensor with one mode per slice whose entries are the source entries. -/
+theorem getitem_intslice (u : Tensor R) (hu : u.WF) (key key1 : List RawItem) (ks : List LogicIS)
+    (hp : processKey u.length key = .ok key1) (hn : normKey key1 u.shape = .ok (logicISItems ks)) (hl : ks.length = u.length) :
+    (logicISShape ks = [] → u.getitem key = .ok (.inr (u.dense (logicISSrc ks [])))) ∧
+    (logicISShape ks ≠ [] → ∃ v : Tensor R, u.getitem key = .ok (.inl v) ∧ v.WF ∧ v.shape = logicISShape ks ∧
+      ∀ out, out.length = v.length → v.dense out = u.dense (logicISSrc ks out)) := by
+  obtain ⟨lastRR, hfin⟩ := getitem_unfold u _ _ _ hp hn
+  obtain ⟨r, hr1, hr2, hr3⟩ := logic_goKey_is (R := R) lastRR ks u false Option.none hl
+  have hwfr : ∀ m l, r.1 = m :: l → Tensor.WF (m :: l) := by
+    intro m l hml
+    cases u with
+    | nil => exact absurd hu (by simp [Tensor.WF])
+    | cons m0 rest =>
+      have := (logic_goKey_is_wf lastRR ks (m0 :: rest) false Option.none m0.core.rl r hl hu (by intro q hq; cases hq) hr1).1
+      rw [hml] at this
+      simp only [rowdim] at this
+      exact ⟨rfl, this.2.1, this.2.2⟩
+  rw [← logic_groupKey_is] at hr1
+  have hg := hfin r hr1
+  have hne : ks ≠ [] := by
+    intro h; subst h
+    cases u with
+    | nil => simp [Tensor.WF] at hu
+    | cons _ _ => simp at hl
+  constructor
+  · intro hks
+    have hk : r.1 = [] := by rw [hks] at hr2; simpa [Tensor.shape] using hr2
+    obtain ⟨l, q⟩ := r
+    simp only at hk; subst hk
+    have hq := hr3 rfl (Or.inr hne)
+    cases q with
+    | none => simp at hq
+    | some q =>
+      simp only [finishKey] at hg
+      have hf : fits (groupKey (logicISItems ks)) u.length 0 := by
+        have := logic_fits_is ks
+        rw [logic_groupKey_is, ← hl]; rw [hks] at this; exact this
+      have hx := C03.getitem_scalar u hu _ _ _ hp hn q.total hg hf
+      rw [hg, hx, logic_groupKey_is, logic_srcIdx_is ks [] (by simp [hks])]
+  · intro hks
+    obtain ⟨l, q⟩ := r
+    cases l with
+    | nil => exact absurd hr2.symm hks
+    | cons m l =>
+      simp only [finishKey] at hg
+      refine ⟨m :: l, hg, hwfr m l rfl, hr2, ?_⟩
+      intro out ho
+      have hol : out.length = (logicISShape ks).length := by
+        rw [ho, ← hr2, shape_length]
+      have hf : fits (groupKey (logicISItems ks)) u.length out.length := by
+        rw [logic_groupKey_is, ← hl, hol]; exact logic_fits_is ks
+      rw [C03.getitem_tensor u hu _ _ _ hp hn m l hg out hf, logic_groupKey_is, logic_srcIdx_is ks out hol]
+
+
+
+theorem logicIns_length (n v : Nat) (out : List Nat) : (logicIns n v out).length = out.length + 1 := by
+  simp [logicIns]; omega
+
+/-- **the difference tensor of `relevant_symbols`** (logic.py:127-133): for a `2^N` tensor `t` and a variable `n < N`
+    the indexing of the extended cores never fails, and the squared norm that is compared with the threshold is the
+    sum over the `2^(N-1)` assignments of the other variables of `(t[x_n = 1] − t[x_n = 0])²`. -/
+theorem relNormsq_spec (N : Nat) (t : Tensor R) (ht : t.WF) (hs : t.shape = List.replicate N 2) (n : Nat) (hn : n < N) :
+    t.logicRelNormsq n = .ok (boxSum (List.replicate (N - 1) 2) fun out =>
+      (t.dense (logicIns n 1 out) - t.dense (logicIns n 0 out)) * (t.dense (logicIns n 1 out) - t.dense (logicIns n 0 out))) := by
+  have hp : t.tt.isPureTT = true := tt_pure t
+  have hw1 : t.tt.WF := tt_WF t ht
+  have hs1 : t.tt.shape = List.replicate N 2 := by rw [tt_shape, hs]
+  have hl1 : t.tt.length = N := by rw [← shape_length, hs1]; simp
+  have hw2 : t.logicDiff.WF := logicDiffMap_WF _ hw1
+  have hs2 : t.logicDiff.shape = List.replicate N 3 := by rw [logicDiff_eq, logicDiffMap_shape _ hp, hs1]; simp
+  have hl2 : t.logicDiff.length = N := by rw [← shape_length, hs2]; simp
+  obtain ⟨gA, gB⟩ := getitem_intslice t.logicDiff hw2 (logicRelKey N n) (logicRelKey N n) (logicRelIS N n)
+    (by rw [hl2]; exact logic_processKey_rel N n hn) (by rw [hs2]; exact logic_normKey_rel N n hn) (by rw [logicRelIS_length N n hn, hl2])
+  have key : ∀ out : List Nat, out.length = N - 1 →
+      t.logicDiff.dense (logicISSrc (logicRelIS N n) out) = t.dense (logicIns n 1 out) - t.dense (logicIns n 0 out) := by
+    intro out ho
+    rw [logicISSrc_rel N n hn out ho, logicDiff_eq, logicDiff_dense_at _ hp _ _ (by rw [List.length_take, hl1]; omega),
+      C01.tt_dense t ht, C01.tt_dense t ht]
+    rfl
+  rw [logicISShape_rel N n hn] at gA gB
+  simp only [Tensor.logicRelNormsq, hl2]
+  by_cases h1 : N - 1 = 0
+  · rw [gA (by rw [h1]; rfl)]
+    simp only [bind, Except.bind, pure, Except.pure, h1, List.replicate_zero, boxSum]
+    rw [key [] (by simp [h1])]
+  · obtain ⟨v, g1, g2, g3, g4⟩ := gB (by intro h; have := congrArg List.length h; simp at this; exact h1 this)
+    rw [g1]
+    simp only [bind, Except.bind, pure, Except.pure]
+    rw [logic_normsqTab_eq v g2, C06.normsq_eq v g2, g3]
+    congr 1
+    apply boxSum_congr_inShape
+    intro out ho
+    obtain ⟨hlen, _⟩ := (logic_inShape_bits out (N - 1)).mp ho
+    have hv : v.length = N - 1 := by rw [← shape_length, g3]; simp
+    rw [g4 out (by rw [hlen, hv]), key out hlen]
+
+
+/-- the truth table `f` of `N` variables depends on variable `n`: for some assignment `out` of the other `N − 1`
+    variables the two values of `x_n` give different results (`logicIns n v out` inserts `x_n = v`) -/
+def dependsOn (N : Nat) (f : List Nat → Bool) (n : Nat) : Bool :=
+  (assignments (N - 1)).any fun out => f (logicIns n 1 out) != f (logicIns n 0 out)
+
+theorem logicIns_bits (n v : Nat) (hv : v = 0 ∨ v = 1) (out : List Nat) (h01 : ∀ u ∈ out, u = 0 ∨ u = 1) :
+    ∀ u ∈ logicIns n v out, u = 0 ∨ u = 1 := by
+  intro u hu
+  simp only [logicIns, List.mem_append, List.mem_cons] at hu
+  rcases hu with hu | rfl | hu
+  · exact h01 u (List.mem_of_mem_take hu)
+  · exact hv
+  · exact h01 u (List.mem_of_mem_drop hu)
+
+theorem logicIns_set (n v w : Nat) (out : List Nat) (hn : n ≤ out.length) :
+    (logicIns n v out).set n w = logicIns n w out := by
+  simp only [logicIns]
+  have : (List.take n out).length = n := by simp [hn]
+  rw [List.set_append_right _ _ (by omega), this]; simp
+
+theorem logicIns_erase (n : Nat) (x : List Nat) (hn : n < x.length) (v : Nat) :
+    logicIns n v (x.take n ++ x.drop (n + 1)) = x.set n v := by
+  simp only [logicIns]
+  have h1 : (List.take n x).length = n := by simp; omega
+  rw [List.take_left' h1, List.drop_left' h1, List.set_eq_take_append_cons_drop, if_pos hn]
+
+/-- `dependsOn` says: there are two assignments that differ only in `x_n` (namely `x` with `x_n := 1` and with
+    `x_n := 0`) on which the truth table takes different values -/
+theorem dependsOn_iff (N : Nat) (f : List Nat → Bool) (n : Nat) (hn : n < N) :
+    dependsOn N f n = true ↔
+      ∃ x : List Nat, x.length = N ∧ (∀ v ∈ x, v = 0 ∨ v = 1) ∧ f (x.set n 1) ≠ f (x.set n 0) := by
+  simp only [dependsOn, List.any_eq_true, bne_iff_ne]
+  constructor
+  · rintro ⟨out, hm, hf⟩
+    obtain ⟨hl, h01⟩ := (mem_assignments (N - 1) out).mp hm
+    refine ⟨logicIns n 0 out, by rw [logicIns_length]; omega, logicIns_bits n 0 (Or.inl rfl) out h01, ?_⟩
+    rw [logicIns_set n 0 1 out (by omega), logicIns_set n 0 0 out (by omega)]
+    exact hf
+  · rintro ⟨x, hl, h01, hf⟩
+    refine ⟨x.take n ++ x.drop (n + 1), (mem_assignments (N - 1) _).mpr ⟨by simp; omega, ?_⟩, ?_⟩
+    · intro v hv
+      rcases List.mem_append.mp hv with h | h
+      · exact h01 v (List.mem_of_mem_take h)
+      · exact h01 v (List.mem_of_mem_drop h)
+    · rw [logicIns_erase n x (by omega), logicIns_erase n x (by omega)]
+      exact hf
+
+/-- the quantity `relevant_symbols` compares with its threshold is, for a 0/1 tensor, the NUMBER of assignments of the
+    other variables on which the value depends on `x_n` -/
+theorem relNormsq_bool (N : Nat) (t : Tensor R) (ht : t.WF) (hs : t.shape = List.replicate N 2) (f : List Nat → Bool)
+    (hd : ∀ idx, idx.length = N → (∀ v ∈ idx, v = 0 ∨ v = 1) → t.dense idx = b01 (f idx)) (n : Nat) (hn : n < N) :
+    t.logicRelNormsq n =
+      .ok (((assignments (N - 1)).countP fun out => f (logicIns n 1 out) != f (logicIns n 0 out) : Nat) : R) := by
+  rw [relNormsq_spec N t ht hs n hn]
+  congr 1
+  apply boxSum_bool
+  intro out ho h01
+  rw [hd _ (by rw [logicIns_length]; omega) (logicIns_bits n 1 (Or.inr rfl) out h01),
+    hd _ (by rw [logicIns_length]; omega) (logicIns_bits n 0 (Or.inl rfl) out h01)]
+  cases f (logicIns n 1 out) <;> cases f (logicIns n 0 out) <;> simp [b01]
+
+section relevant
+variable {K : Type} [Field K] [LinearOrder K] [IsStrictOrderedRing K]
+
+theorem logicRelGo_spec (thr : K) (h1 : thr * thr < 1) (N : Nat) (t : Tensor K) (ht : t.WF)
+    (hs : t.shape = List.replicate N 2) (f : List Nat → Bool)
+    (hd : ∀ idx, idx.length = N → (∀ v ∈ idx, v = 0 ∨ v = 1) → t.dense idx = b01 (f idx)) :
+    ∀ ns : List Nat, (∀ n ∈ ns, n < N) → logicRelGo thr t ns = .ok (ns.filter (dependsOn N f)) := by
+  intro ns
+  induction ns with
+  | nil => intro _; rfl
+  | cons n ns ih =>
+    intro h
+    have hn := h n (by simp)
+    have hrest := ih (fun m hm => h m (List.mem_cons_of_mem _ hm))
+    have hgt : logicNormGt thr (((assignments (N - 1)).countP
+        (fun out => f (logicIns n 1 out) != f (logicIns n 0 out)) : Nat) : K) = dependsOn N f n := by
+      rw [Bool.eq_iff_iff, normGt_nat thr _ h1, dependsOn, List.any_eq_true, Ne, List.countP_eq_zero]
+      simp
+    simp only [logicRelGo, relNormsq_bool N t ht hs f hd n hn, hrest, bind, Except.bind, pure, Except.pure, hgt,
+      List.filter_cons]
+
+/-- **`relevant_symbols`** (threshold with `thr² < 1`, e.g. the literal `1e-10`): for a `2^N` tensor with the 0/1 truth
+    table `f` the call never fails and returns, in increasing order, exactly the variables the truth table depends on. -/
+theorem relevant_symbols_spec (thr : K) (h1 : thr * thr < 1) (N : Nat) (t : Tensor K) (ht : t.WF)
+    (hs : t.shape = List.replicate N 2) (f : List Nat → Bool)
+    (hd : ∀ idx, idx.length = N → (∀ v ∈ idx, v = 0 ∨ v = 1) → t.dense idx = b01 (f idx)) :
+    t.relevantSymbols thr = .ok ((List.range N).filter (dependsOn N f)) := by
+  have hN : t.length = N := by rw [← shape_length, hs]; simp
+  rw [Tensor.relevantSymbols, hN]
+  exact logicRelGo_spec thr h1 N t ht hs f hd _ (fun n hn => List.mem_range.mp hn)
+
+/-- a variable is reported relevant iff two assignments differing only in it get different truth values -/
+theorem relevant_iff (thr : K) (h1 : thr * thr < 1) (N : Nat) (t : Tensor K) (ht : t.WF)
+    (hs : t.shape = List.replicate N 2) (f : List Nat → Bool)
+    (hd : ∀ idx, idx.length = N → (∀ v ∈ idx, v = 0 ∨ v = 1) → t.dense idx = b01 (f idx)) :
+    ∃ rel, t.relevantSymbols thr = .ok rel ∧ ∀ n, n ∈ rel ↔
+      n < N ∧ ∃ x : List Nat, x.length = N ∧ (∀ v ∈ x, v = 0 ∨ v = 1) ∧ f (x.set n 1) ≠ f (x.set n 0) := by
+  refine ⟨_, relevant_symbols_spec thr h1 N t ht hs f hd, fun n => ?_⟩
+  rw [List.mem_filter, List.mem_range]
+  constructor
+  · rintro ⟨hn, hdep⟩; exact ⟨hn, (dependsOn_iff N f n hn).mp hdep⟩
+  · rintro ⟨hn, hx⟩; exact ⟨hn, (dependsOn_iff N f n hn).mpr hx⟩
+
+/-- **`irrelevant_symbols`**: exactly the variables the truth table does not depend on. -/
+theorem irrelevant_symbols_spec (thr : K) (h1 : thr * thr < 1) (N : Nat) (t : Tensor K) (ht : t.WF)
+    (hs : t.shape = List.replicate N 2) (f : List Nat → Bool)
+    (hd : ∀ idx, idx.length = N → (∀ v ∈ idx, v = 0 ∨ v = 1) → t.dense idx = b01 (f idx)) :
+    t.irrelevantSymbols thr = .ok ((List.range N).filter fun n => !dependsOn N f n) := by
+  have hN : t.length = N := by rw [← shape_length, hs]; simp
+  simp only [Tensor.irrelevantSymbols, relevant_symbols_spec thr h1 N t ht hs f hd, hN, bind, Except.bind, pure,
+    Except.pure]
+  congr 1
+  apply List.filter_congr
+  intro n hn
+  congr 1
+  rw [Bool.eq_iff_iff, List.contains_iff_mem, List.mem_filter]
+  simp [hn]
+
+end relevant
+
+
+theorem clampLabels_bits : ∀ (N : Nat) (idx : List Nat), idx.length = N → (∀ v ∈ idx, v = 0 ∨ v = 1) →
+    clampLabels ((List.replicate N 2).map List.range) (List.replicate N 2) idx = idx := by
+  intro N
+  induction N with
+  | zero => intro idx h _; have : idx = [] := List.length_eq_zero_iff.mp h; subst this; rfl
+  | succ N ih =>
+    intro idx h h01
+    cases idx with
+    | nil => simp at h
+    | cons i is =>
+      simp only [List.replicate_succ, List.map_cons, clampLabels]
+      rw [ih is (by simpa using h) (fun v hv => h01 v (List.mem_cons_of_mem _ hv))]
+      rcases h01 i (by simp) with rfl | rfl <;> simp [List.range_succ]
+
+section only
+variable {K : Type} [Field K] [LinearOrder K] [IsStrictOrderedRing K]
+
+/-- **`only(t)`** (`tn.mask(t, absence(N, irrelevant_symbols(t)))`): for a `2^N` tensor with the 0/1 truth table `f`
+    the call never fails; the result is a well-formed `2^N` tensor that equals `t` on the assignments in which every
+    variable the truth table does not depend on is 0, and is 0 on all other assignments. -/
+theorem only_dense (thr : K) (h1 : thr * thr < 1) (N : Nat) (hN : 0 < N) (t : Tensor K) (ht : t.WF)
+    (hs : t.shape = List.replicate N 2) (f : List Nat → Bool)
+    (hd : ∀ idx, idx.length = N → (∀ v ∈ idx, v = 0 ∨ v = 1) → t.dense idx = b01 (f idx)) :
+    ∃ u : Tensor K, t.only thr = .ok u ∧ u.WF ∧ u.shape = List.replicate N 2 ∧
+      ∀ idx : List Nat, idx.length = N → (∀ v ∈ idx, v = 0 ∨ v = 1) →
+        u.dense idx = if (∀ n, n < N → dependsOn N f n = false → idx.getD n 0 = 0) then t.dense idx else 0 := by
+  have hlen : t.length = N := by rw [← shape_length, hs]; simp
+  set irr := (List.range N).filter fun n => !dependsOn N f n with hirr
+  have hlt : ∀ n ∈ irr, n < N := fun n hn => List.mem_range.mp (List.mem_filter.mp hn).1
+  have hws : logicNormWhich N (irr.map Int.ofNat) = .ok irr := by
+    rw [normWhich_ok N _ (by
+      intro w hw
+      obtain ⟨n, hn, rfl⟩ := List.mem_map.mp hw
+      have := hlt n hn
+      constructor <;> simp <;> omega)]
+    congr 1
+    rw [List.map_map]
+    conv_rhs => rw [← List.map_id irr]
+    apply List.map_congr_left
+    intro n hn
+    have := hlt n hn
+    simp [Int.emod_eq_of_lt, this]
+  -- the mask
+  obtain ⟨m, hm1, hm2, hm3, _⟩ := absence_dense (R := K) N hN (irr.map Int.ofNat) irr hws (List.replicate N 0) (by simp)
+    (by intro v hv; left; exact List.eq_of_mem_replicate hv)
+  have hmd : ∀ idx : List Nat, idx.length = N → (∀ v ∈ idx, v = 0 ∨ v = 1) →
+      m.dense idx = if (∀ w ∈ irr, idx.getD w 0 = 0) then 1 else 0 := by
+    intro idx hi h01
+    obtain ⟨m', e1, _, _, e4⟩ := absence_dense (R := K) N hN (irr.map Int.ofNat) irr hws idx hi h01
+    rw [hm1] at e1
+    cases e1
+    exact e4
+  have hml : m.length = N := by rw [← shape_length, hm3]; simp
+  obtain ⟨r1, r2, r3⟩ := C20.maskWith_dense t m (t.shape.map List.range) ht hm2 (by rw [List.length_map, shape_length, hlen, hml])
+    (by simp [List.map_map, Function.comp_def]) (by rw [hm3]; intro n hn; rw [List.eq_of_mem_replicate hn]; omega)
+  refine ⟨t.maskWith (t.shape.map List.range) m, ?_, r1, by rw [r2, hs], ?_⟩
+  · simp only [Tensor.only, irrelevant_symbols_spec thr h1 N t ht hs f hd, hlen, ← hirr, hm1, bind, Except.bind, pure,
+      Except.pure]
+  · intro idx hi h01
+    rw [r3 idx (by rw [hi, hlen]), hs, hm3, clampLabels_bits N idx hi h01, hmd idx hi h01]
+    have hP : (∀ w ∈ irr, idx.getD w 0 = 0) ↔ ∀ n, n < N → dependsOn N f n = false → idx.getD n 0 = 0 := by
+      constructor
+      · intro h n hn hdep
+        exact h n (List.mem_filter.mpr ⟨List.mem_range.mpr hn, by simp [hdep]⟩)
+      · intro h w hw
+        have := List.mem_filter.mp hw
+        exact h w (List.mem_range.mp this.1) (by simpa using this.2)
+    by_cases hq : ∀ w ∈ irr, idx.getD w 0 = 0
+    · rw [if_pos hq, if_pos (hP.mp hq), mul_one]
+    · rw [if_neg hq, if_neg (fun h => hq (hP.mpr h)), mul_zero]
+
+/-- **relevant / irrelevant symbols and `only` on formulas**: for every well-formed formula tree over `N` variables
+    and every threshold with `thr² < 1` (the literal is `1e-10`). -/
+theorem relevant_formula (thr : K) (h1 : thr * thr < 1) (N : Nat) (hN : 0 < N) (e : BForm K) (hw : wfB N e) :
+    (evalT (toExpr N e)).relevantSymbols thr = .ok ((List.range N).filter (dependsOn N (evalB e))) ∧
+    (evalT (toExpr N e)).irrelevantSymbols thr = .ok ((List.range N).filter fun n => !dependsOn N (evalB e) n) ∧
+    ∃ u : Tensor K, (evalT (toExpr N e)).only thr = .ok u ∧ u.WF ∧ u.shape = List.replicate N 2 ∧
+      ∀ idx : List Nat, idx.length = N → (∀ v ∈ idx, v = 0 ∨ v = 1) →
+        u.dense idx = b01 (evalB e idx && decide (∀ n, n < N → dependsOn N (evalB e) n = false → idx.getD n 0 = 0)) := by
+  obtain ⟨w, s⟩ := formula_wf_shape N hN e hw
+  have d := fun idx hi h01 => truth_table N hN e hw idx hi h01
+  refine ⟨relevant_symbols_spec thr h1 N _ w s _ d, irrelevant_symbols_spec thr h1 N _ w s _ d, ?_⟩
+  obtain ⟨u, u1, u2, u3, u4⟩ := only_dense thr h1 N hN _ w s _ d
+  refine ⟨u, u1, u2, u3, fun idx hi h01 => ?_⟩
+  rw [u4 idx hi h01, d idx hi h01]
+  by_cases hq : ∀ n, n < N → dependsOn N (evalB e) n = false → idx.getD n 0 = 0
+  · rw [if_pos hq, decide_eq_true hq, Bool.and_true]
+  · rw [if_neg hq, decide_eq_false hq, Bool.and_false]; rfl
+
+example : dependsOn 2 (evalB (R := Int) (.or (.sym 0) (.not (.sym 0)))) 0 = false ∧
+    dependsOn 2 (evalB (R := Int) (.and (.sym 0) (.sym 1))) 1 = true := by decide
+
+end only
+
+
+/-! ### non-vacuity of the hypotheses of the extension theorems -/
+
+/-- `which = [0, -1]` over 3 variables: accepted, means the variables 0 and 2 -/
+example : logicNormWhich 3 [0, -1] = .ok [0, 2] := by decide
+/-- `which = [3]` over 3 variables raises -/
+example : logicNormWhich 3 [3] = .error .outOfRange := by decide
+/-- a 0/1 assignment of 3 variables, as the helper theorems require -/
+example : ([1, 0, 1] : List Nat).length = 3 ∧ ∀ v ∈ ([1, 0, 1] : List Nat), v = 0 ∨ v = 1 := by decide
+/-- `one(3, [0])` as coded is 0 on `(1, 1, 0)` although exactly one LISTED variable is 1 (two variables are 1 overall) -/
+example : (([1, 1, 0] : List Nat).count 1 = 1 ∧ ∃ n ∈ [0], n < 3 ∧ ([1, 1, 0] : List Nat).getD n 0 = 1) = False := by
+  simp
+/-- a pair of well-formed formulas over 2 variables for the predicates (ℚ; `ρ = 2` would be needed for `^` over ℚ with
+    `N = 1`, so the example uses `~ & |`) -/
+example : wfB (R := ℚ) 2 (.or (.sym 0) (.not (.sym 0))) ∧ wfB (R := ℚ) 2 (.and (.sym 0) (.sym 1)) := by simp [wfB]
+/-- an `xor` node is well formed over `N = 1` with `ρ = 2` -/
+example : wfB (R := ℚ) 1 (.xor 2 (.sym 0) (.sym 0)) := by simp [wfB]
+/-- the literal `1e-10` of `relevant_symbols` satisfies `thr² < 1` -/
+example : (1 / 10000000000 : ℚ) * (1 / 10000000000) < 1 := by norm_num
+
+
+section relevant_general
+variable {K : Type} [Field K] [LinearOrder K] [IsStrictOrderedRing K]
+
+theorem boxSum_ge_term : ∀ (ns : List Nat) (f : List Nat → K), (∀ is, 0 ≤ f is) → ∀ out, inShape out ns →
+    f out ≤ boxSum ns f := by
+  intro ns
+  induction ns with
+  | nil =>
+    intro f _ out ho
+    cases out with
+    | nil => exact le_refl _
+    | cons _ _ => simp [inShape] at ho
+  | cons n ns ih =>
+    intro f hf out ho
+    cases out with
+    | nil => simp [inShape] at ho
+    | cons i out =>
+      obtain ⟨hi, ho'⟩ := ho
+      simp only [boxSum, sumTo_eq]
+      calc f (i :: out) ≤ boxSum ns (fun is => f (i :: is)) := ih _ (fun is => hf _) out ho'
+        _ ≤ ∑ j ∈ range n, boxSum ns (fun is => f (j :: is)) :=
+          Finset.single_le_sum (f := fun j => boxSum ns (fun is => f (j :: is)))
+            (fun j _ => boxSum_nonneg ns _ (fun is => hf _)) (Finset.mem_range.mpr hi)
+
+/-- **the test of `relevant_symbols` on an arbitrary (not necessarily Boolean) `2^N` tensor**, exact arithmetic, any
+    threshold: a variable is reported only if some pair of entries differing only in it differs (no false positive),
+    and it is reported as soon as one such pair differs by more than `|thr|`. -/
+theorem relevant_test_general (thr : K) (N : Nat) (t : Tensor K) (ht : t.WF) (hs : t.shape = List.replicate N 2)
+    (n : Nat) (hn : n < N) :
+    ∃ x, t.logicRelNormsq n = .ok x ∧
+      (logicNormGt thr x = true → ∃ out : List Nat, out.length = N - 1 ∧ (∀ v ∈ out, v = 0 ∨ v = 1) ∧
+        t.dense (logicIns n 1 out) ≠ t.dense (logicIns n 0 out)) ∧
+      (∀ out : List Nat, out.length = N - 1 → (∀ v ∈ out, v = 0 ∨ v = 1) →
+        thr * thr < (t.dense (logicIns n 1 out) - t.dense (logicIns n 0 out)) *
+          (t.dense (logicIns n 1 out) - t.dense (logicIns n 0 out)) → logicNormGt thr x = true) := by
+  refine ⟨_, relNormsq_spec N t ht hs n hn, ?_, ?_⟩
+  · intro h
+    have hnn := boxSum_nonneg (List.replicate (N - 1) 2) (fun out =>
+      (t.dense (logicIns n 1 out) - t.dense (logicIns n 0 out)) * (t.dense (logicIns n 1 out) - t.dense (logicIns n 0 out)))
+      (fun is => mul_self_nonneg _)
+    simp only [logicNormGt, logicClamp0, if_neg (not_lt.mpr hnn), decide_eq_true_eq] at h
+    have hne : boxSum (List.replicate (N - 1) 2) (fun out =>
+      (t.dense (logicIns n 1 out) - t.dense (logicIns n 0 out)) * (t.dense (logicIns n 1 out) - t.dense (logicIns n 0 out))) ≠ 0 := by
+      intro h0; rw [h0] at h; exact absurd h (not_lt.mpr (mul_self_nonneg thr))
+    rw [Ne, boxSum_eq_zero_iff _ _ (fun is => mul_self_nonneg _)] at hne
+    simp only [not_forall] at hne
+    obtain ⟨out, ho, hd⟩ := hne
+    obtain ⟨h1, h2⟩ := (logic_inShape_bits out (N - 1)).mp ho
+    refine ⟨out, h1, h2, ?_⟩
+    intro heq; apply hd; rw [heq]; ring
+  · intro out ho h01 hlt
+    have hge := boxSum_ge_term (List.replicate (N - 1) 2) (fun out =>
+      (t.dense (logicIns n 1 out) - t.dense (logicIns n 0 out)) * (t.dense (logicIns n 1 out) - t.dense (logicIns n 0 out)))
+      (fun is => mul_self_nonneg _) out ((logic_inShape_bits out (N - 1)).mpr ⟨ho, h01⟩)
+    have hnn := le_trans (mul_self_nonneg _) hge
+    simp only [logicNormGt, logicClamp0, if_neg (not_lt.mpr hnn), decide_eq_true_eq]
+    exact lt_of_lt_of_le hlt hge
+
+end relevant_general
+
 
 end TN.C15
